@@ -414,7 +414,7 @@ static int search_progress(vbi_page *pg)
 static int make_pattern(uint16_t *pat, int kind)
 {
 	int n = 0, i;
-	if (kind == 0 && tmp_pg.rows > 2 && tmp_pg.columns >= 40) {
+	if (kind == 0 && tmp_pg.rows > 2 && tmp_pg.rows <= 25 && tmp_pg.columns >= 40 && tmp_pg.columns <= 41) {   /* tmp_pg may be the debris of a failed fetch */
 		/* taken from the page fetched last */
 		int row = vf_range(&xr, 1, tmp_pg.rows - 1), col = (int)vf_below(&xr, 30), len = vf_range(&xr, 1, 8);
 		for (i = 0; i < len; i++) {
@@ -445,6 +445,7 @@ static void do_search(int pgno, int subno, int kind, int flags)
 	vbi_search *s;
 	int i, nnext;
 	make_pattern(pat, kind);
+	if (vf_verbose) { int k; vf_log("  search pattern kind=%d flags=%d:", kind, flags); for (k = 0; pat[k]; k++) vf_log(pat[k] >= 0x20 && pat[k] < 0x7F ? "%c" : "\\u%04x", pat[k]); vf_log("\n"); }
 	if (pgno < 0x100 || pgno > 0x8FF) pgno = 0x100;          /* the page walk indexes per-page statistics by pgno */
 	cnt[C_SEARCH_NEW]++;
 	progress_countdown = (flags & 8) ? vf_range(&xr, 1, 5) : 0;
